@@ -117,8 +117,8 @@ fn roundtrip_case(rep: &mut Report, dir: &Path, version: u32, i: usize, n: usize
 				eprintln!("  roundtrip ok: {} at {}/{}", show(&cols[p]), p, n);
 			}
 		},
-		Ok(Err(f)) => rep.violation(sig(&f.failure), f.detail, replay),
-		Err(p) => rep.violation(sig(&format!("panic;site={}", panic_site(&p))), p, replay),
+		Ok(Err(f)) => crate::util::violation(rep, sig(&f.failure), f.detail, replay),
+		Err(p) => crate::util::violation(rep, sig(&format!("panic;site={}", panic_site(&p))), p, replay),
 	}
 }
 
@@ -241,7 +241,7 @@ fn mismatch_attempt(rep: &mut Report, st: &Stored, req: &[ColumnOptions], mode: 
 			}
 		},
 		Ok(Ok(())) => {
-			rep.violation(
+			crate::util::violation(rep, 
 				format!("{};failure=open_mismatch_accepted", sigbase),
 				format!("{} succeeded on a database stored as [{}] when asked for [{}]", mode.name(), show_all(&st.cols), show_all(req)),
 				replay.clone(),
@@ -249,7 +249,7 @@ fn mismatch_attempt(rep: &mut Report, st: &Stored, req: &[ColumnOptions], mode: 
 			intact = false;
 		},
 		Err(p) => {
-			rep.violation(format!("{};failure=panic;site={}", sigbase, panic_site(&p)), format!("{} on stored [{}] requested [{}]: {}", mode.name(), show_all(&st.cols), show_all(req), p), replay.clone());
+			crate::util::violation(rep, format!("{};failure=panic;site={}", sigbase, panic_site(&p)), format!("{} on stored [{}] requested [{}]: {}", mode.name(), show_all(&st.cols), show_all(req), p), replay.clone());
 			intact = false;
 		},
 	}
@@ -257,7 +257,7 @@ fn mismatch_attempt(rep: &mut Report, st: &Stored, req: &[ColumnOptions], mode: 
 	let d = diff_hashes(&st.base, &after, true);
 	if !d.is_empty() {
 		let classes: BTreeSet<String> = d.iter().map(|x| file_class(x.split(':').next().unwrap_or(""))).collect();
-		rep.violation(
+		crate::util::violation(rep, 
 			format!("{};failure=open_mismatch_modified_files;files={}", sigbase, classes.into_iter().collect::<Vec<_>>().join("+")),
 			format!("{} on stored [{}] requested [{}] (logs pending: {}): files changed: {}", mode.name(), show_all(&st.cols), show_all(req), st.logs_pending, d.join(", ")),
 			replay.clone(),
@@ -289,7 +289,7 @@ fn mismatch_stored(ctx: &Ctx, rep: &mut Report, v: usize, seed: u64, logs_pendin
 			return
 		},
 		Err(pm) => {
-			rep.violation(
+			crate::util::violation(rep, 
 				format!("scenario=C17;part=mismatch;failure=panic;site={};phase=build", panic_site(&pm)),
 				format!("building [{}]: {}", show_all(&cols), pm),
 				J::obj().set("part", J::s("b")).set("stored", J::i(v as u64)).set("case_seed", J::i(seed)).set("logs", J::Bool(logs_pending)),
@@ -429,8 +429,8 @@ fn missing_cases(ctx: &Ctx, rep: &mut Report, seed: u64) {
 						eprintln!("  {} {} -> Err({})", mode.name(), case, e);
 					}
 				},
-				Ok(Ok(())) => rep.violation(format!("{};failure=open_missing_accepted;case={}", sigbase, case), format!("{} without create succeeded on {}", mode.name(), case), replay.clone()),
-				Err(p) => rep.violation(format!("{};failure=panic;site={};case={}", sigbase, panic_site(&p), case), p, replay.clone()),
+				Ok(Ok(())) => crate::util::violation(rep, format!("{};failure=open_missing_accepted;case={}", sigbase, case), format!("{} without create succeeded on {}", mode.name(), case), replay.clone()),
+				Err(p) => crate::util::violation(rep, format!("{};failure=panic;site={};case={}", sigbase, panic_site(&p), case), p, replay.clone()),
 			}
 			// nothing may have been created below the scratch root
 			let mut created = vec![];
@@ -447,7 +447,7 @@ fn missing_cases(ctx: &Ctx, rep: &mut Report, seed: u64) {
 				}
 			}
 			for f in created {
-				rep.violation(
+				crate::util::violation(rep, 
 					format!("scenario=C17;failure=open_created_files;case={};file={};mode={}", case, f, mode.name()),
 					format!("{} (no create) on {} returned an error but left '{}' behind in {}", mode.name(), case, f, if case == "empty_dir" { "the previously empty directory" } else { "the parent of the missing path" }),
 					replay.clone(),
@@ -864,7 +864,7 @@ pub fn admin_case(ctx: &Ctx, rep: &mut Report, case_seed: u64) {
 			return
 		},
 		Err(p) => {
-			rep.violation(format!("scenario=C17;part=admin;failure=panic;site={};phase=build", panic_site(&p)), format!("{} :: {}", p, desc0), replay);
+			crate::util::violation(rep, format!("scenario=C17;part=admin;failure=panic;site={};phase=build", panic_site(&p)), format!("{} :: {}", p, desc0), replay);
 			return
 		},
 	};
@@ -911,11 +911,11 @@ pub fn admin_case(ctx: &Ctx, rep: &mut Report, case_seed: u64) {
 			},
 			Ok(Err(f)) => {
 				rep.evaluations += 1;
-				rep.violation(sig(&f.failure), format!("{} :: {}", f.detail, desc), replay);
+				crate::util::violation(rep, sig(&f.failure), format!("{} :: {}", f.detail, desc), replay);
 				return
 			},
 			Err(p) => {
-				rep.violation(sig(&format!("panic;site={}", panic_site(&p))), format!("{} :: {}", p, desc), replay);
+				crate::util::violation(rep, sig(&format!("panic;site={}", panic_site(&p))), format!("{} :: {}", p, desc), replay);
 				return
 			},
 		}
@@ -931,8 +931,8 @@ pub fn part_c(ctx: &Ctx, rep: &mut Report) {
 		admin_case(ctx, rep, case_seed);
 		ctx.checkpoint(rep);
 		i += 1;
-		if rep.get("violations_raw") >= 40 {
-			rep.notes.push(format!("shard {} stopped part (c) after 40 failing checks", ctx.shard));
+		if crate::util::distinct_failure_classes() >= 30 || rep.get("failing_checks") >= 3000 {
+			rep.notes.push(format!("shard {} stopped part (c) early: {} distinct failure classes, {} failing checks", ctx.shard, crate::util::distinct_failure_classes(), rep.get("failing_checks")));
 			break
 		}
 	}
